@@ -157,8 +157,20 @@ class Session:
             m.loaded = True
             self.rec.take()
         self.cm = m.ConnectionManager()
-        fm = m.matcher.parse(f_text).simplify() if f_text is not None else m.matcher.always
-        bm = m.matcher.parse(b_text).simplify() if b_text is not None else m.matcher.never
+        if f_text is None and b_text is None:
+            fm, bm = m.matcher.always, m.matcher.never
+        else:
+            # matchers given with -f / -b reach the controller the way main.py hands them over: through parse_args
+            from frontends.tui import parse_args
+            # (inside GDB - here: with the stand-in gdb module loaded - the instance is the plugin and takes no mode option)
+            in_gdb = 'gdb' in sys.modules and m.util.check_gdb()
+            argv = ['wayland-debug'] + ([] if in_gdb else ['-l', '/dev/null']) + (['-f', f_text] if f_text is not None else []) + (['-b', b_text] if b_text is not None else [])
+            try:
+                a = parse_args(argv)
+            except SystemExit as e:
+                raise RuntimeError('parse_args exits with %r for %r' % (e.code, argv))
+            fm, bm = a.filter_matcher, a.stop_matcher
+            m.util.set_color_output(color)
         self.ctl = m.Controller(self.output, self.cm, fm, bm)
         self.ids = {}        # connection ordinal -> ids mentioned so far (for the table projection)
         self.ncreate = {}    # (connection ordinal, id) -> new-id arguments fed so far
@@ -363,8 +375,9 @@ def run_unguarded(trace, render=None, color=False, snapshot_db=True, keep_sessio
     """
     render = dict(render or {})
     init = trace['init']
-    f_text = mrender.r_top(init['f']) if init.get('hasf') else None
-    b_text = mrender.r_top(init['b']) if init.get('hasb') else None
+    # (init['ftext'] / init['btext']: the option's text as it is, for texts that are not renderings of a tree)
+    f_text = init['ftext'] if 'ftext' in init else (mrender.r_top(init['f']) if init.get('hasf') else None)
+    b_text = init['btext'] if 'btext' in init else (mrender.r_top(init['b']) if init.get('hasb') else None)
     S = Session(show=init.get('show', True), f_text=f_text, b_text=b_text, color=color)
     m = S.m
     if keep_session:
@@ -524,6 +537,16 @@ def run_unguarded(trace, render=None, color=False, snapshot_db=True, keep_sessio
         evrec = events[state['i']]
         state['i'] += 1
         observe(evrec)
+    elif state['i'] < len(events):
+        # the tool left its input loop although there was more to read (no end of file was signalled): nothing of the rest
+        # was consumed.  Not a harness problem: recorded like an escaped exception and judged by the caller.
+        trace['escaped'] = ('InputNotConsumed: the tool stopped reading after %d of %d input events; next unread: %r'
+                            % (state['i'], len(events), events[state['i']]['in']))
+        for evrec in events:
+            evrec.pop('_nh_before', None)
+            if 'obs' not in evrec:
+                evrec['obs'] = {'items': []}
+        return trace
     else:
         # the driver ran out of events: an implicit end of input; record it so nothing goes unobserved
         events.append({'in': {'e': 'eof'}})
